@@ -2,7 +2,7 @@
 import itertools
 import re
 
-from pyvc.unit import unit
+from pyvc.unit import bare, unit
 
 CF = "androguard/decompiler/control_flow.py"
 BB = "androguard/decompiler/basic_blocks.py"
@@ -122,7 +122,7 @@ def chains(U):
             return n
 
         def printed(node):
-            w = object.__new__(wr.Writer)
+            w = bare(wr.Writer)
             buf = []
             w.write = lambda s, data=None: buf.append(s)
             w.write_ext = lambda t: None
